@@ -74,3 +74,28 @@ class V:
              "classes": sorted(self.classes), "class_counts": dict(self.class_counts)}
         r.update(kw)
         return r
+
+
+class Hang(BaseException):
+    """Raised in the main thread by `deadline` when the guarded block does not return in time."""
+
+
+@contextlib.contextmanager
+def deadline(seconds):
+    """Bounded-progress watchdog for one call (nests inside the shard runner's per-case alarm)."""
+    import signal
+    import time
+
+    def onalarm(signum, frame):
+        raise Hang(f"no return within {seconds}s")
+
+    old = signal.signal(signal.SIGALRM, onalarm)
+    remaining = signal.alarm(int(seconds))
+    t0 = time.monotonic()
+    try:
+        yield
+    finally:
+        signal.alarm(0)
+        signal.signal(signal.SIGALRM, old)
+        if remaining:
+            signal.alarm(max(1, int(remaining - (time.monotonic() - t0))))
